@@ -1020,7 +1020,8 @@ class HealSparseMap(object):
                 sp_map_t = self._sparse_map.reshape(shape_new)
             counts = np.sum((sp_map_t != self._sentinel), axis=1).astype(np.float64)
 
-        cov_map[cov_mask] = counts[1:]/self._cov_map.nfine_per_cov
+        # counts[1:] are per storage block; blocks are not necessarily in coverage-pixel order.
+        cov_map[self._cov_map._block_to_cov_index] = counts[1:]/self._cov_map.nfine_per_cov
         return cov_map
 
     @property
@@ -1092,9 +1093,10 @@ class HealSparseMap(object):
 
         fracdet /= nfine_per_frac
 
+        # The fracdet blocks are in the same (allocation) order as the sparse map blocks.
         fracdet_cov_map = HealSparseCoverage.make_from_pixels(self.nside_coverage,
                                                               nside,
-                                                              np.where(cov_mask)[0])
+                                                              self._cov_map._block_to_cov_index)
 
         # The sentinel for a fracdet_map is 0.0, no coverage.
         return HealSparseMap(cov_map=fracdet_cov_map, sparse_map=fracdet,
